@@ -1,1 +1,116 @@
-harnesses! {}
+//! C06 — centroid (PARTIAL: tiny shapes).  `f32`, float NaN/overflow checks off, S-ORIENT for the
+//! dimension tests of Triangle, S-HYPOT for segment lengths.
+use crate::gen::*;
+use crate::oracle::*;
+use crate::Src;
+use geo::Centroid;
+use geo_types::{Geometry, GeometryCollection, Line, LineString, MultiPoint, Point, Polygon, Triangle};
+
+fn near(v: f32, num: W, den: W) -> bool {
+    // v * den within 1e-4 of num (small integers)
+    (v * (den as f32) - (num as f32)).abs() <= 0.0001 * (1.0 + (num as f32).abs())
+}
+
+pub fn triangle<S: Src>(s: &mut S, n: i8) {
+    let (a, b, c) = (gp(s, n), gp(s, n), gp(s, n));
+    vassume!(orient(a, b, c) != 0);
+    let t = Triangle(cf(a), cf(b), cf(c));
+    let g = t.centroid();
+    assert!(near(g.x(), a.0 + b.0 + c.0, 3) && near(g.y(), a.1 + b.1 + c.1, 3), "Triangle centroid is not the mean of the vertices");
+    vcover!(orient(a, b, c) < 0, "clockwise triangle");
+}
+
+pub fn polygon3<S: Src>(s: &mut S, n: i8) {
+    let (a, b, c) = (gp(s, n), gp(s, n), gp(s, n));
+    vassume!(orient(a, b, c) != 0);
+    let p: Polygon<f32> = poly_f(&[a, b, c, a], &[]);
+    let g = p.centroid();
+    assert!(g.is_some(), "centroid of a non-empty polygon is None");
+    let g = g.unwrap();
+    assert!(near(g.x(), a.0 + b.0 + c.0, 3) && near(g.y(), a.1 + b.1 + c.1, 3), "3-ring polygon centroid is not the mean of the vertices");
+    vcover!(orient(a, b, c) < 0, "clockwise ring");
+    core::mem::forget(p);
+}
+
+pub fn line_point<S: Src>(s: &mut S, n: i8) {
+    let (a, b) = (gp(s, n), gp(s, n));
+    let g = Line::new(cf(a), cf(b)).centroid();
+    assert!(g.x() * 2.0 == (a.0 + b.0) as f32 && g.y() * 2.0 == (a.1 + b.1) as f32, "Line centroid is not the midpoint");
+    let p = Point(cf(a)).centroid();
+    assert!(p == Point(cf(a)), "Point centroid");
+    let mp = MultiPoint(vec![Point(cf(a)), Point(cf(b))]);
+    let m = mp.centroid();
+    assert!(m.is_some(), "centroid of a non-empty MultiPoint is None");
+    let m = m.unwrap();
+    assert!(m.x() * 2.0 == (a.0 + b.0) as f32 && m.y() * 2.0 == (a.1 + b.1) as f32, "MultiPoint centroid is not the mean");
+    core::mem::forget(mp);
+}
+
+pub fn empties<S: Src>(s: &mut S) {
+    let a = gp(s, 2);
+    let e1: LineString<f32> = LineString::new(vec![]);
+    assert!(e1.centroid().is_none(), "centroid of an empty LineString is not None");
+    let e2: MultiPoint<f32> = MultiPoint(vec![]);
+    assert!(e2.centroid().is_none(), "centroid of an empty MultiPoint is not None");
+    let e3: Polygon<f32> = Polygon::new(LineString::new(vec![]), vec![]);
+    assert!(e3.centroid().is_none(), "centroid of an empty Polygon is not None");
+    let e4: GeometryCollection<f32> = GeometryCollection(vec![]);
+    assert!(e4.centroid().is_none(), "centroid of an empty GeometryCollection is not None");
+    let one = LineString::new(vec![cf(a)]);
+    assert!(one.centroid() == Some(Point(cf(a))), "centroid of a one-coordinate LineString");
+}
+
+/// a higher-dimensional member replaces lower ones whatever the lower ones are, in either order
+pub fn dominance<S: Src>(s: &mut S, n: i8, order: u8) {
+    let (p, a, b) = (gp(s, n), gp(s, n), gp(s, n));
+    let tri = Triangle(cf((0, 0)), cf((3, 0)), cf((0, 3)));
+    let want = tri.centroid();
+    let (gp_, gl, gt) = (Geometry::Point(Point(cf(p))), Geometry::Line(line_f(a, b)), Geometry::Triangle(tri));
+    let gc = match order {
+        0 => GeometryCollection(vec![gp_, gl, gt]),
+        1 => GeometryCollection(vec![gt, gl, gp_]),
+        _ => GeometryCollection(vec![gl, gt, gp_]),
+    };
+    let g = gc.centroid();
+    assert!(g == Some(want), "a lower-dimensional member changed the centroid of a collection that has an areal member");
+    vcover!(a == b, "degenerate (point-like) line member");
+    core::mem::forget(gc);
+}
+
+/// lines dominate points: [Point(sym), Line(concrete)]
+pub fn dominance_line<S: Src>(s: &mut S, n: i8) {
+    let p = gp(s, n);
+    let l = line_f((0, 0), (4, 2));
+    let gc = GeometryCollection(vec![Geometry::Point(Point(cf(p))), Geometry::Line(l), Geometry::Point(Point(cf(p)))]);
+    assert!(gc.centroid() == Some(l.centroid()), "a point member changed the centroid of a collection that has a linear member");
+    core::mem::forget(gc);
+}
+
+/// zero-area polygon falls back to the centroid of its outline
+pub fn flat_polygon<S: Src>(s: &mut S, n: i8) {
+    let (a, b) = (gp(s, n), gp(s, n));
+    let p: Polygon<f32> = poly_f(&[a, b, a], &[]);
+    let g = p.centroid();
+    assert!(g.is_some(), "flat polygon has no centroid");
+    let g = g.unwrap();
+    assert!(near(g.x(), a.0 + b.0, 2) && near(g.y(), a.1 + b.1, 2), "flat polygon centroid is not the midpoint of its outline");
+    vcover!(a == b, "single repeated point");
+    core::mem::forget(p);
+}
+
+harnesses! {
+    #[kani::unwind(6)] #[kani::stub(robust::orient2d, crate::stubs::orient2d_small)] #[kani::stub(f32::hypot, crate::stubs::hypot_f32)] fn c06_triangle_g1(s) { triangle(s, 1) }
+    #[kani::unwind(6)] #[kani::stub(robust::orient2d, crate::stubs::orient2d_small)] #[kani::stub(f32::hypot, crate::stubs::hypot_f32)] fn c06_triangle_g2(s) { triangle(s, 2) }
+    #[kani::unwind(6)] #[kani::stub(robust::orient2d, crate::stubs::orient2d_small)] #[kani::stub(f32::hypot, crate::stubs::hypot_f32)] fn c06_polygon3_g1(s) { polygon3(s, 1) }
+    #[kani::unwind(6)] #[kani::stub(f32::hypot, crate::stubs::hypot_f32)] fn c06_line_point_g4(s) { line_point(s, 4) }
+    #[kani::unwind(6)] #[kani::stub(f32::hypot, crate::stubs::hypot_f32)] fn c06_empties(s) { empties(s) }
+    #[kani::unwind(6)] #[kani::stub(robust::orient2d, crate::stubs::orient2d_small)] #[kani::stub(f32::hypot, crate::stubs::hypot_f32)] fn c06_dominance_o0(s) { dominance(s, 2, 0) }
+    #[kani::unwind(6)] #[kani::stub(robust::orient2d, crate::stubs::orient2d_small)] #[kani::stub(f32::hypot, crate::stubs::hypot_f32)] fn c06_dominance_o1(s) { dominance(s, 2, 1) }
+    #[kani::unwind(6)] #[kani::stub(robust::orient2d, crate::stubs::orient2d_small)] #[kani::stub(f32::hypot, crate::stubs::hypot_f32)] fn c06_dominance_o2(s) { dominance(s, 2, 2) }
+    #[kani::unwind(6)] #[kani::stub(f32::hypot, crate::stubs::hypot_f32)] fn c06_dominance_line(s) { dominance_line(s, 3) }
+    #[kani::unwind(6)] #[kani::stub(robust::orient2d, crate::stubs::orient2d_small)] #[kani::stub(f32::hypot, crate::stubs::hypot_f32)] fn c06_flat_polygon_g1(s) { flat_polygon(s, 1) }
+    #[kani::unwind(6)] #[kani::stub(f32::hypot, crate::stubs::hypot_f32)] fn c06_sanity_must_fail(s) {
+        line_point(s, 1);
+        assert!(false, "sanity twin reached its end");
+    }
+}
